@@ -25,8 +25,9 @@
    only the two immutable slices it captured and writes only its own `result` and its own handle; nothing a worker
    can read is written by anybody while the scope is alive.  Hence worker steps act on the worker's component of
    the state alone, and a slice is a VALUE captured at spawn time.  Granularity: one `result += a[i]*b[i]` is one
-   step -- finer grains (load, multiply, add) touch only thread-private data, so they commute with every other
-   thread's steps and add no behaviours.
+   step; the third part of this file splits it into load / load / multiply / add (fire_fine) and
+   Proofs/ParSchedFine.v proves that the finer grain adds no behaviour (every fine step is a step of this semantics
+   or a stutter).
 
    Faithfulness details: the slicing `&self.vec[start..end]` happens on the main thread in the spawn iteration and
    can panic (job of Model/ParDot.v; a panic of the closure makes scope wait for the workers already running and
@@ -203,3 +204,87 @@ End ParSched.
 
 Arguments WIdle {A}. Arguments WPanicked {A}. Arguments WJoined {A}.
 Arguments MSpawn {A} i.
+
+(* ------------------------------------------------------------------------------------------------------------
+   FINER GRAIN: the same program with one worker iteration `result += self_slice[i] * w_slice[i]` split into its
+   four machine-level actions, each a separate transition that any other thread's transitions may be interleaved
+   with:   P0 --load self_slice[i]--> P1 p --load w_slice[i] (checked)--> P2 p q --multiply--> P3 (p*q)
+              --add to result, i += 1--> P0.
+   [fw_st] is the worker's state as of its last completed iteration, [fw_ph] the progress inside the current one
+   (registers p, q, the product).  Main is unchanged (a join looks only at the published result).
+   Proofs/ParSchedFine.v: every fine step is a coarse step of the semantics above or leaves the coarse state
+   unchanged, hence the coarse granularity loses no behaviour. *)
+Section ParSchedFine.
+Context {A : Arith}.
+Notation T := (T A).
+
+Inductive phase := P0 | P1 (p : T) | P2 (p q : T) | P3 (m : T).
+Record fwstate := FW { fw_st : @wstate A; fw_ph : phase }.
+
+Definition fwstep (x : fwstate) : option fwstate :=
+  match fw_st x, fw_ph x with
+  | WRun a b n acc, P0 =>
+      if n <? length a then
+        match rd a n with
+        | Ok p => Some (FW (WRun a b n acc) (P1 p))
+        | Panic _ => Some (FW WPanicked P0)
+        end
+      else Some (FW (WDone acc) P0)
+  | WRun a b n acc, P1 p =>
+      match rd b n with
+      | Ok q => Some (FW (WRun a b n acc) (P2 p q))
+      | Panic _ => Some (FW WPanicked P0)
+      end
+  | WRun a b n acc, P2 p q => Some (FW (WRun a b n acc) (P3 (p * q)))
+  | WRun a b n acc, P3 m => Some (FW (WRun a b (S n) (acc + m)) P0)
+  | _, _ => None
+  end.
+
+Record fstate := mkF { f_main : @mstate A; f_ws : list fwstate }.
+
+Variables (v w : list T) (t : nat).
+
+Definition fire_fine (th : tid) (s : fstate) : option fstate :=
+  match th with
+  | Wk k =>
+      match nth_error (f_ws s) k with
+      | Some x => match fwstep x with
+                  | Some x' => Some (mkF (f_main s) (upd_list (f_ws s) k x'))
+                  | None => None
+                  end
+      | None => None
+      end
+  | Main =>
+      match f_main s with
+      | MSpawn i =>
+          if i <? t then
+            match job v w t i with
+            | Ok (a, b) => Some (mkF (MSpawn (S i)) (upd_list (f_ws s) i (FW (WRun a b 0 zero) P0)))
+            | Panic k => Some (mkF (MRet (Panic k)) (f_ws s))
+            end
+          else Some (mkF (MJoin 0 zero) (f_ws s))
+      | MJoin j acc =>
+          if j <? t then
+            match nth_error (f_ws s) j with
+            | Some (FW (WDone r) _) => Some (mkF (MJoin (S j) (acc + r)) (upd_list (f_ws s) j (FW WJoined P0)))
+            | Some (FW WPanicked _) => Some (mkF (MRet (Panic Unwrap)) (f_ws s))
+            | _ => None
+            end
+          else Some (mkF (MRet (Ok acc)) (f_ws s))
+      | MRet _ => None
+      end
+  end.
+
+Fixpoint exec_fine (sch : list tid) (s : fstate) : option fstate :=
+  match sch with
+  | [] => Some s
+  | th :: rest => match fire_fine th s with Some s' => exec_fine rest s' | None => None end
+  end.
+
+Definition terminal_fine (s : fstate) : Prop := forall th, fire_fine th s = None.
+Definition fine_init : fstate := mkF (MSpawn 0) (repeat (FW WIdle P0) t).
+
+(* the coarse state a fine state stands for *)
+Definition abs_state (s : fstate) : @state A := mkState (f_main s) (map fw_st (f_ws s)).
+
+End ParSchedFine.
